@@ -309,11 +309,16 @@ def run_threads(formulas, quanta):
             sys.settrace(glob)
             for f in formulas[me]:
                 baton.in_parse[me] = True
-                r = parsers[me].parse(f)
+                try:
+                    r = parsers[me].parse(f)
+                except Exception as e:
+                    errs.append('PARSE:%s on %r: %s' % (type(e).__name__, f[:60], e))
+                    raise
                 baton.in_parse[me] = False
                 out[me].append(r)
         except BaseException as e:        # noqa
-            errs.append(repr(e))
+            if not errs:
+                errs.append(repr(e))
         finally:
             sys.settrace(None)
             baton.yield_turn(me, finished=True)
@@ -325,6 +330,9 @@ def run_threads(formulas, quanta):
     if any(t.is_alive() for t in ts):
         raise RuntimeError('baton scheduler: a thread did not finish (harness error)')
     if errs:
+        if errs[0].startswith('PARSE:'):
+            raise Violation('an evaluation on its own parser, run in a thread other than the one that built the parser, raised instead of returning a record: %s (formulas %r)' % (errs[0][6:], formulas),
+                            errs[0][6:], 'a result/error record')
         raise RuntimeError('baton scheduler: %s' % errs[0])
     if baton.stalled is not None:
         blocked, holder = baton.stalled
